@@ -15,11 +15,14 @@ then quantifies over paths: "whenever <outcome> then <atoms decided so / writes 
               only on paths where both flags were found true.  The sets of operational states are a
               frozen table; staleness is exactly `max_data_age < now - timestamp`.
   C16.TIMER   on every path of a message handler the message timestamp is recorded and that stream's
-              timer reset; in the select loop every path of a timer branch decides freshness on *its
+              timer reset; in the select loop every event source (two data streams, set-power results)
+              is processed by its own handler with the selected message, and that handler runs for no
+              other event; every path of a timer branch decides freshness on *its
               own* stream's last timestamp (and on no other stream's), a stale outcome calls that
               stream's timer handler, after which that stream's flag is false on every path and the
               other flag untouched; every path that calls a `_handle_status_*` afterwards evaluates
-              the change detection.
+              the change detection; the select loop sits in a try absorbing Exception inside an
+              endless loop that nothing leaves.
   C16.CHANGE  a path sends iff the change detector's result was found not None, after the (single)
               detection, and sends ComponentStatus(component_id=battery id, value=that result); the
               detector calls `_get_current_status` once, and returns it exactly on the paths where it
@@ -30,7 +33,8 @@ then quantifies over paths: "whenever <outcome> then <atoms decided so / writes 
               in polynomial normal form after strong update of written attributes); unblock clears on
               every path; is_blocked is True exactly when blocked_until is set and in the future; the
               tracker unblocks on every path with a success and blocks exactly on failure when the
-              last status was not NOT_WORKING; a blocked healthy battery is UNCERTAIN; uncertain
+              last status was not NOT_WORKING; a blocked healthy battery is UNCERTAIN and WORKING is
+              returned only when is_blocked() was false or the recovery from NOT_WORKING cleared it; uncertain
               components are returned exactly when the working intersection is empty.
 """
 from __future__ import annotations
@@ -38,10 +42,9 @@ from __future__ import annotations
 import ast
 from typing import Any, Callable
 
-from ..engine.cfg import CFG
 from ..engine.normalize import positional
 from ..engine.report import AnalysisError, Run
-from ..engine.resolver import FuncInfo, Program
+from ..engine.resolver import FuncInfo, Program, walk_no_nested
 from ._c16_util import (Atom, Exec, PathSum, State, Unsupported, eq_key, in_key, is_key, lt_key, parse_expr, poly,
                         text, truthy_key, u)
 
@@ -125,14 +128,17 @@ def _fact_stale(a: Atom) -> bool | None:
 
 
 # frozen instance table: predicate -> disqualifying facts it must exclude — a vanished atom is exit 2
-FACTS: dict[str, list[tuple[str, Callable[[Atom], bool | None]]]] = {
-    "_is_capacity_present": [("NaN capacity", _fact_nan)],
-    "_no_critical_error": [("critical error", _fact_critical)],
-    "_is_inverter_state_correct": [("invalid inverter state", _fact_not_in("component_state", "_inverter_valid_state"))],
+# (third column: the message field the fact is about — a condition on that field which is not a test of the
+#  fact in a recognised form is reported as a violation; no condition on the field at all is exit 2)
+FACTS: dict[str, list[tuple[str, Callable[[Atom], bool | None], str]]] = {
+    "_is_capacity_present": [("NaN capacity", _fact_nan, "MSG.capacity")],
+    "_no_critical_error": [("critical error", _fact_critical, "MSG.errors")],
+    "_is_inverter_state_correct": [("invalid inverter state", _fact_not_in("component_state", "_inverter_valid_state"),
+                                    "MSG.component_state")],
     "_is_battery_state_correct": [
-        ("invalid battery state", _fact_not_in("component_state", "_battery_valid_state")),
-        ("invalid relay state", _fact_not_in("relay_state", "_battery_valid_relay"))],
-    "_is_message_reliable": [("stale message", _fact_stale)],
+        ("invalid battery state", _fact_not_in("component_state", "_battery_valid_state"), "MSG.component_state"),
+        ("invalid relay state", _fact_not_in("relay_state", "_battery_valid_relay"), "MSG.relay_state")],
+    "_is_message_reliable": [("stale message", _fact_stale, "MSG.timestamp")],
 }
 REQUIRED = {
     "_handle_status_battery": ("self._battery", {"_is_message_reliable", "_is_battery_state_correct",
@@ -193,13 +199,21 @@ def check_safe(run: Run, prog: Program) -> None:  # noqa: C901
         fn = prog.func(f"{TR}.{pname}")
         run.analysed(fn.qual)
         paths = paths_of(prog, fn, ["MSG"], mode="bool")
-        for label, match in facts:
+        for label, match, field in facts:
             def holds(p: PathSum, match: Callable[[Atom], bool | None] = match) -> bool | None:
                 """True: fact holds on p; False: excluded on p; None: not tested on p."""
                 got = [v == match(a) for a, v in p.atoms_where(lambda a: match(a) is not None)]
                 return None if not got else any(got)
             if all(holds(p) is None for p in paths):
-                raise AnalysisError(f"{fn.qual}: the test of the disqualifying fact `{label}` vanished")
+                near = [a for p in paths for a, _v in p.atoms_where(
+                    lambda a, field=field: field in " ".join(text(o) for o in a.ops))]
+                if not near:
+                    raise AnalysisError(f"{fn.qual}: the test of the disqualifying fact `{label}` vanished")
+                run.check(False, "C16.SAFE", fn.qual, f"{label} -> False",
+                          f"the condition on {field} reads `{near[0].show()}`: it does not decide the disqualifying "
+                          f"fact `{label}`, so `{pname}` can return True while the fact holds",
+                          node=fn.node, file=fn.file, instance=f"{fn.qual}: {label} => False on every path")
+                continue
             bad = first([p for p in paths if not falsy_ret(p) and holds(p) is not False])
             run.check(bad is None, "C16.SAFE", fn.qual, f"{label} -> False",
                       f"with the disqualifying fact `{label}` true (or untested), `{pname}` can still return a "
@@ -259,10 +273,17 @@ def check_safe(run: Run, prog: Program) -> None:  # noqa: C901
     k_blk = truthy_key("self._blocking_status.is_blocked()")
     k_was_nw = eq_key("self._last_status", NW)
     blocked = [p for p in paths if p.fact(k_blk) is True]
-    bad = first([p for p in blocked if ret_text(p) != UNCERTAIN] +
-                [p for p in paths if ret_text(p) == WORKING and not (p.fact(k_was_nw) is True or p.fact(k_blk) is False)])
+    bad = first([p for p in blocked if ret_text(p) != UNCERTAIN])
     run.check(bool(blocked) and bad is None, "C16.BLOCK", gs.qual, "blocked -> UNCERTAIN",
               "a healthy but blocked battery is not reported as uncertain", node=gs.node, file=gs.file, path=wit(bad))
+    # WORKING means "not blocked": either is_blocked() was found false, or the block was cleared on this path
+    # (the recovery from NOT_WORKING, and only that, may clear it)
+    bad = first([p for p in paths if ret_text(p) == WORKING and p.fact(k_blk) is not False
+                 and not (p.fact(k_was_nw) is True and p.call_texts("self._blocking_status.unblock()"))])
+    run.check(bad is None, "C16.BLOCK", gs.qual, "WORKING only when not blocked (tested, or cleared on recovery)",
+              "WORKING is returned while a block from an earlier failed command may still be pending: the recovery from "
+              "NOT_WORKING does not clear it, so the next evaluation flips the battery to UNCERTAIN and a later "
+              "failure doubles a stale back-off", node=gs.node, file=gs.file, path=wit(bad))
 
 
 # ------------------------------------------------------------------------------ the select loop
@@ -271,15 +292,18 @@ def _contains_select_loop(s: ast.AST) -> bool:
                for n in ast.walk(s))
 
 
-def loop_paths(prog: Program, rn: FuncInfo) -> list[PathSum]:
+def loop_paths(prog: Program, rn: FuncInfo) -> tuple[list[PathSum], list[ast.AST], list[ast.stmt]]:
     """Paths through one iteration of the `async for selected in select(...)` body of `_run`: the
     straight-line code leading to the loop is executed first (receiver / timer aliases), names
-    assigned inside the body start each iteration unknown, the loop variable is SELECTED."""
+    assigned inside the body start each iteration unknown, the loop variable is SELECTED.
+    Also returned: the resolved arguments of `select(...)` and the compound statements enclosing
+    the loop (outermost first)."""
     ex = Exec(prog, rn, bool_attrs={FLAG})
     node = ex.prepared(rn)
     names = [a.arg for a in node.args.args][1:]
     st: State = ex.initial(dict(zip(names, ["STATUS_SENDER", "SET_POWER_RESULT_RECEIVER"])))
     suite = node.body
+    chain: list[ast.stmt] = []
     try:
         while True:
             idx = [i for i, s in enumerate(suite) if _contains_select_loop(s)]
@@ -295,6 +319,7 @@ def loop_paths(prog: Program, rn: FuncInfo) -> list[PathSum]:
             if isinstance(s, (ast.While, ast.Try, ast.With, ast.AsyncWith)) and not _contains_select_loop(
                     ast.Module(body=getattr(s, "orelse", []) + getattr(s, "finalbody", []), type_ignores=[])):
                 suite = s.body
+                chain.append(s)
                 continue
             raise AnalysisError(f"{rn.qual}: select loop inside an unexpected `{type(s).__name__}`")
         if not isinstance(s.target, ast.Name):
@@ -302,12 +327,88 @@ def loop_paths(prog: Program, rn: FuncInfo) -> list[PathSum]:
         for n in ast.walk(ast.Module(body=s.body, type_ignores=[])):
             if isinstance(n, ast.Name) and isinstance(n.ctx, ast.Store):
                 st.locals[n.id] = ast.Name(id=f"PREVIOUS<{n.id}>", ctx=ast.Load())
+        sel_args = [ex._res(a, st) for a in s.iter.args]
         st.locals[s.target.id] = ast.Name(id="SELECTED", ctx=ast.Load())
         st.events.clear()
         paths = ex.run_suite(s.body, st)
     except Unsupported as exc:
         raise AnalysisError(f"{rn.qual}: cannot be interpreted path by path ({exc})") from exc
-    return [p for p in paths if p.exit != "raise"]
+    return [p for p in paths if p.exit != "raise"], sel_args, chain
+
+
+def source_of(x: ast.AST) -> str | None:
+    """Which event source a (resolved) receiver expression is, by what produced it:
+    'data:self._battery' / 'data:self._inverter' (the api client's data stream of that component),
+    'timer:<stream>' (that stream's data-age timer), 'result' (the set-power result receiver)."""
+    t = text(x)
+    for stream in ("self._battery", "self._inverter"):
+        if t == f"{stream}.data_recv_timer":
+            return f"timer:{stream}"
+    if t in ("SET_POWER_RESULT_RECEIVER", "self._set_power_result_receiver"):
+        return "result"
+    inner = x.value if isinstance(x, ast.Await) else x
+    if isinstance(inner, ast.Call) and isinstance(inner.func, ast.Attribute) and len(inner.args) == 1 and not inner.keywords:
+        ids = {"self._battery": ("self._battery.component_id", "self.battery_id"), "self._inverter": ("self._inverter.component_id",)}
+        for stream, method in (("self._battery", "battery_data"), ("self._inverter", "inverter_data")):
+            if inner.func.attr == method and text(inner.args[0]) in ids[stream]:
+                return f"data:{stream}"
+    return None
+
+
+def selected_key(p_atoms: dict, source: str) -> tuple | None:
+    """Key of the atom `selected_from(SELECTED, <receiver of source>)` as it occurs in the loop body."""
+    for key, a in p_atoms.items():
+        if a.kind == "truthy" and isinstance(a.ops[0], ast.Call) and u(a.ops[0].func) == "selected_from" \
+                and len(a.ops[0].args) == 2 and text(a.ops[0].args[0]) == "SELECTED" and source_of(a.ops[0].args[1]) == source:
+            return key
+    return None
+
+
+DISPATCH = {  # event source -> the handler that must process its message (and no other event)
+    "data:self._battery": "_handle_status_battery",
+    "data:self._inverter": "_handle_status_inverter",
+    "result": "_handle_status_set_power_result",
+}
+
+
+def _kept_alive(chain: list[ast.stmt]) -> bool:
+    """`while <true constant>:` ... `try:` <select loop> `except Exception:` <no return/raise/break>, and no
+    statement of the endless loop leaves it."""
+    for i, w in enumerate(chain):
+        if not (isinstance(w, ast.While) and isinstance(w.test, ast.Constant) and bool(w.test.value) and not w.orelse):
+            continue
+        for t in chain[i + 1:]:
+            if not isinstance(t, ast.Try):
+                continue
+            absorbs = any(
+                (h.type is None or any(isinstance(n, ast.Name) and n.id in ("Exception", "BaseException") for n in ast.walk(h.type)))
+                and not any(isinstance(n, (ast.Return, ast.Raise, ast.Break)) for b in h.body for n in walk_no_nested(b))
+                for h in t.handlers)
+            if absorbs and not _leaves(w):
+                return True
+    return False
+
+
+def _leaves(w: ast.While) -> bool:
+    """A `return` anywhere in the loop, or a `break` that belongs to the loop itself."""
+    def scan(stmts: list[ast.stmt], own: bool) -> bool:
+        for s in stmts:
+            if isinstance(s, (ast.FunctionDef, ast.AsyncFunctionDef, ast.ClassDef)):
+                continue
+            if isinstance(s, ast.Return) or (own and isinstance(s, ast.Break)):
+                return True
+            inner_own = own and not isinstance(s, (ast.For, ast.AsyncFor, ast.While))
+            for field in ("body", "orelse", "finalbody"):
+                if scan(getattr(s, field, []) or [], inner_own if field == "body" else own):
+                    return True
+            for h in getattr(s, "handlers", []):
+                if scan(h.body, own):
+                    return True
+            for c in getattr(s, "cases", []):
+                if scan(c.body, own):
+                    return True
+        return False
+    return scan(w.body, True)
 
 
 def _is_handler_call(c: ast.Call) -> bool:
@@ -346,7 +447,26 @@ def check_timer(run: Run, prog: Program) -> None:
                   path=wit(bad))
     rn = prog.func(f"{TR}._run")
     run.analysed(rn.qual)
-    paths = loop_paths(prog, rn)
+    paths, sel_args, chain = loop_paths(prog, rn)
+    atoms = paths[0].state.atoms if paths else {}
+    sources = [source_of(a) for a in sel_args]
+    if None in sources or len(set(sources)) != len(sources):
+        raise AnalysisError(f"{rn.qual}: cannot tell what `{text(sel_args[sources.index(None)]) if None in sources else 'select'}` "
+                            "selects from (expected the two data streams, their timers and the set-power results)")
+    # every message source is dispatched to its own handler, with the selected message, and only there
+    for source, hname in DISPATCH.items():
+        if source not in sources:
+            raise AnalysisError(f"{rn.qual}: select() does not listen to {source}")
+        k_src = selected_key(atoms, source)
+        want = f"self.{hname}(SELECTED.message)"
+        side = [p for p in paths if k_src is not None and p.fact(k_src) is True]
+        bad = first([p for p in side if not p.call_texts(want)] +
+                    [p for p in paths for _i, c in p.calls(lambda c, h=hname: isinstance(c.func, ast.Attribute) and c.func.attr == h)
+                     if text(c) != want or k_src is None or p.fact(k_src) is not True])
+        run.check(bool(side) and bad is None, "C16.TIMER", rn.qual, f"{source} -> {hname}(selected.message)",
+                  f"an event selected from {source} is not (or not only such an event is) processed by {hname}: "
+                  "the stream's health flag / back-off state no longer reflects that stream's latest message",
+                  node=rn.node, file=rn.file, path=wit(bad), instance=f"{rn.qual}: dispatch of {source}")
     n_branch = 0
     for stream in ("self._battery", "self._inverter"):
         k_sel = truthy_key(f"selected_from(SELECTED, {stream}.data_recv_timer)")
@@ -369,6 +489,10 @@ def check_timer(run: Run, prog: Program) -> None:
         if bad is None:
             bad = first([p for p in side if p.fact(k_fresh) is False and not p.call_texts(want_handler)])
             detail = f"a stale {stream} does not lead to {want_handler[5:]}"
+        if bad is None:
+            bad = first([p for p in paths if p.call_texts(want_handler)
+                         and not (p.fact(k_sel) is True and p.fact(k_fresh) is False)])
+            detail = f"{want_handler[5:]} clears the flag although {stream}'s data timer did not fire on stale data"
         run.check(bad is None, "C16.TIMER", rn.qual, f"timer branch of {stream}", detail, node=rn.node, file=rn.file,
                   path=wit(bad))
     if n_branch != 2:
@@ -383,11 +507,11 @@ def check_timer(run: Run, prog: Program) -> None:
         run.check(bad is None, "C16.TIMER", rn.qual, h,
                   "a branch that may change the health flags returns to the select loop without "
                   "re-evaluating the status", node=rn.node, file=rn.file, path=wit(bad))
-    # the crash handler keeps the tracker alive
-    cfg = CFG(rn.node, rn.file)
-    run.check(any(n.kind == "handler" and "Exception" in n.label for n in cfg.nodes) and any(n.kind == "while" for n in cfg.nodes),
-              "C16.TIMER", rn.qual, "select loop restarted after an unexpected error",
-              "an unexpected error ends status tracking", node=rn.node, file=rn.file)
+    # the tracker stays alive: the select loop sits in a `try` that absorbs Exception inside an endless loop
+    # that nothing leaves
+    run.check(_kept_alive(chain), "C16.TIMER", rn.qual, "select loop restarted after an unexpected error",
+              "status tracking can end: the select loop is not (re)entered by an endless loop whose body absorbs "
+              "unexpected errors", node=rn.node, file=rn.file)
 
 
 def _is_status_send(c: ast.Call) -> bool:
@@ -397,9 +521,8 @@ def _is_status_send(c: ast.Call) -> bool:
 
 def check_change(run: Run, prog: Program) -> None:
     rn = prog.func(f"{TR}._run")
-    paths = loop_paths(prog, rn)
-    if not any(p.calls(_is_status_send) for p in paths):
-        raise AnalysisError(f"{rn.qual}: expected a status send")
+    paths, _sel_args, _chain = loop_paths(prog, rn)
+    has_send = any(p.calls(_is_status_send) for p in paths)
     k_none = is_key(DETECT, "None")
 
     def send_ok(p: PathSum) -> bool:
@@ -409,8 +532,9 @@ def check_change(run: Run, prog: Program) -> None:
         det = p.call_texts(DETECT)
         return p.fact(k_none) is False and len(det) == 1 and all(i > det[0] for i, _c in sends)
     bad = first([p for p in paths if not send_ok(p)])
-    run.check(bad is None, "C16.CHANGE", rn.qual, "send iff new_status is not None",
-              "a notification can be sent although the status did not change", node=rn.node, file=rn.file, path=wit(bad))
+    run.check(bad is None and has_send, "C16.CHANGE", rn.qual, "send iff new_status is not None",
+              "a notification can be sent although the status did not change (or a detected change is not sent)",
+              node=rn.node, file=rn.file, path=wit(bad))
     fields = [s.target.id for s in prog.cls(f"{CSMOD}:ComponentStatus").node.body
               if isinstance(s, ast.AnnAssign) and isinstance(s.target, ast.Name)]
     if fields[:2] != ["component_id", "value"]:
@@ -423,7 +547,7 @@ def check_change(run: Run, prog: Program) -> None:
         return set(got) == {"component_id", "value"} and got["value"] == DETECT and got["component_id"] in (
             "self.battery_id", "self._battery.component_id")
     bad = first([p for p in paths if not all(carries(c) for _i, c in p.calls(_is_status_send))])
-    run.check(bad is None, "C16.CHANGE", rn.qual, "sends ComponentStatus(battery_id, <detected change>)",
+    run.check(bad is None and has_send, "C16.CHANGE", rn.qual, "sends ComponentStatus(battery_id, <detected change>)",
               "the notification does not carry the status found by the change detection", node=rn.node, file=rn.file,
               path=wit(bad))
     gn = prog.func(f"{TR}._get_new_status_if_changed")
@@ -497,11 +621,13 @@ def check_block(run: Run, prog: Program) -> None:  # noqa: C901
         run.check(bad is None, "C16.BLOCK", fn.qual, f"{name}: blocked_until = now + duration",
                   "the block does not end after the computed duration", node=fn.node, file=fn.file, path=wit(bad))
     ub = prog.func(f"{BS}.unblock")
+    run.analysed(ub.qual)
     paths = paths_of(prog, ub)
     bad = first([p for p in paths if not (isinstance(p.last_write(until), ast.Constant) and p.last_write(until).value is None)])  # type: ignore[union-attr]
     run.check(bad is None, "C16.BLOCK", ub.qual, "unblock clears blocked_until",
               "unblock() does not clear the block", node=ub.node, file=ub.file, path=wit(bad))
     ib = prog.func(f"{BS}.is_blocked")
+    run.analysed(ib.qual)
     paths = paths_of(prog, ib, mode="bool")
 
     def blocked_ok(p: PathSum) -> bool:
@@ -586,6 +712,19 @@ CONTROLS = [
      "not in BatteryStatusTracker._battery_valid_relay:", "in BatteryStatusTracker._battery_valid_relay:", "C16.SAFE"),
     ("inverter state check dropped from the conjunction", MOD,
      "            and self._is_inverter_state_correct(", "            and self._is_message_reliable(", "C16.SAFE"),
+    ("recovery from NOT_WORKING does not clear the block", MOD,
+     "            self._blocking_status.unblock()\n            return ComponentStatusEnum.WORKING",
+     "            return ComponentStatusEnum.WORKING", "C16.BLOCK"),
+    ("battery handler runs for every event but battery data", MOD,
+     "                    if selected_from(selected, battery):\n", "                    if not selected_from(selected, battery):\n", "C16.TIMER"),
+    ("inverter data not processed", MOD,
+     "                        self._handle_status_inverter(selected.message)\n", "                        pass\n", "C16.TIMER"),
+    ("select loop never entered", MOD, "        while True:\n            try:", "        while False:\n            try:", "C16.TIMER"),
+    ("critical-error filter selects the non-critical errors", MOD,
+     "if err.level == critical)", "if err.level != critical)", "C16.SAFE"),
+    ("detected change not sent", MOD,
+     "                        await status_sender.send(\n                            ComponentStatus(self.battery_id, new_status)\n                        )\n",
+     "                        pass\n", "C16.CHANGE"),
 ]
 
 
@@ -606,9 +745,9 @@ def check(run: Run, prog: Program, tier: str) -> str:
              "unblock on every success; block on failure unless NOT_WORKING; uncertain only as fallback")
     run_rules(run, prog)
     run.floor("C16.SAFE", 16)
-    run.floor("C16.TIMER", 10)
+    run.floor("C16.TIMER", 13)
     run.floor("C16.CHANGE", 3)
-    run.floor("C16.BLOCK", 10)
+    run.floor("C16.BLOCK", 11)
     from ..engine.controls import run_controls
 
     run_controls(run, CONTROLS, run_rules, tier, base_prog=prog)
